@@ -427,9 +427,13 @@ Lemma update_chain_tip_spec c q t qs qe entries :
     (forall h, scanned_at q h -> (forall ms, max_scanned c = Some ms -> h <= ms) -> scanned_at q' h) /\
     (forall h, rows_at (map row_of q) h <> None -> rows_at (map row_of q') h <> None) /\
     (forall e h, In e entries -> in_range (rs e) (re e) h = true -> rows_at (map row_of q') h <> None) /\
-    (birthday c <> None -> forall h, rows_at (map row_of q') h = Some Ignored -> rows_at (map row_of q) h = Some Ignored).
+    (birthday c <> None -> forall h, rows_at (map row_of q') h = Some Ignored -> rows_at (map row_of q) h = Some Ignored) /\
+    (forall h, rows_at (map row_of q') h = Some Verify <->
+               rows_at (map row_of q) h = Some Verify \/
+               exists vs ve, expected_verify c t = Some (vs, ve) /\ vs <= h < ve).
 Proof.
-  intros C K E T. destruct (tip_plan_spec c t K) as (p & E' & Sp). rewrite E in E'. injection E' as <-.
+  intros C K E T. destruct (tip_plan_verify c t K) as (pv & Ev & Spv). rewrite E in Ev. injection Ev as <-.
+  destruct (tip_plan_spec c t K) as (p & E' & Sp). rewrite E in E'. injection E' as <-.
   destruct Sp as (L & es & l & -> & Nes & Vl & W & Pes & Pl1 & Pl2 & Pl3).
   unfold update_chain_tip. rewrite E. cbn [bind].
   destruct (replace_touching_facts q qs qe es l false C L T Nes Vl W) as (q' & -> & Cq' & _ & P & P2 & PC & PE & PI).
@@ -440,7 +444,40 @@ Proof.
   { split; [exact PC|]. split; [exact PE|]. intros NB. apply PI. intros e Ie. apply in_app_or in Ie. destruct Ie as [Ie|[<-|[]]].
     - rewrite Forall_forall in Pes. rewrite (Pes e Ie). discriminate.
     - intros Ei. apply NB. apply Pl3. exact Ei. }
-  rewrite <- and_assoc. split; [|exact EXTRA]. clear EXTRA PC PE PI.
+  assert (VER : forall h, rows_at (map row_of q') h = Some Verify <->
+               rows_at (map row_of q) h = Some Verify \/
+               exists vs ve, expected_verify c t = Some (vs, ve) /\ vs <= h < ve).
+  { destruct Spv as (es' & l' & Eel & V1 & V2). apply app_inj_tail in Eel. destruct Eel as (<- & <-).
+    set (seg := seg_state (filter (selp qs qe) q)) in *.
+    set (S := fold_spec seg (entry_ops false (es ++ [l]))) in *.
+    assert (ESv : S = ins_spec (fold_spec seg (entry_ops false es)) (rs l) (re l) (rp l) false).
+    { unfold S, entry_ops. rewrite map_app, fold_spec_app_q. reflexivity. }
+    assert (FV : forall h, pm (fold_spec seg (entry_ops false es)) h = Some Verify <-> pm seg h = Some Verify).
+    { intros h. apply fold_verify_other. intros o Io. unfold entry_ops in Io. apply in_map_iff in Io.
+      destruct Io as (r & <- & Ir). rewrite Forall_forall in Pes. pose proof (Pes r Ir) as Er.
+      unfold op_row, row_of. cbn [fst snd]. rewrite Er. split; discriminate. }
+    assert (LoL : lo S <= rs l).
+    { unfold S. apply (fold_lo_le_entry _ _ (op_row (l, false))). unfold entry_ops. apply (in_map (fun r => op_row (r, false))).
+      apply in_or_app. right. left. reflexivity. }
+    assert (HiL : re l <= hi S).
+    { unfold S. apply (fold_hi_ge_entry _ _ (op_row (l, false))). unfold entry_ops. apply (in_map (fun r => op_row (r, false))).
+      apply in_or_app. right. left. reflexivity. }
+    intros h. rewrite P. destruct (in_range (lo S) (hi S) h) eqn:Hin.
+    - rewrite (P2 h Hin). rewrite ESv. destruct (prio_eqb (rp l) Verify) eqn:PV.
+      + apply prio_eqb_eq in PV. rewrite PV, ins_verify_verify, FV, (V1 PV). unfold seg at 1, seg_state. cbn [pm]. unfold in_range.
+        split; intros [A|A]; auto.
+        * right. exists (rs l), (re l). split; [reflexivity|lia].
+        * destruct A as (vs & ve & [= <- <-] & R). left. lia.
+      + assert (NV : rp l <> Verify) by (intros X; rewrite X in PV; destruct Verify; discriminate PV).
+        rewrite (ins_verify_other _ _ _ _ _ _ NV Pl1), FV, (V2 NV). unfold seg at 1, seg_state. cbn [pm].
+        split; [auto|]. intros [A|(vs & ve & X & _)]; [exact A|discriminate X].
+    - split; [auto|]. intros [A|(vs & ve & X & R)]; [exact A|]. exfalso.
+      destruct (prio_eqb (rp l) Verify) eqn:PV.
+      + apply prio_eqb_eq in PV. rewrite (V1 PV) in X. injection X as <- <-. unfold in_range in Hin. lia.
+      + assert (NV : rp l <> Verify) by (intros Y; rewrite Y in PV; destruct Verify; discriminate PV).
+        rewrite (V2 NV) in X. discriminate X. }
+  rewrite <- !and_assoc. split; [|exact VER]. rewrite !and_assoc.
+  rewrite <- and_assoc. split; [|exact EXTRA]. clear EXTRA VER PC PE PI.
   set (sel := filter (selp qs qe) q) in *.
   set (S := fold_spec (seg_state sel) (entry_ops false (es ++ [l]))) in *.
   assert (S1 : forall h, pm (fold_spec (seg_state sel) (entry_ops false es)) h = Some Scanned <-> rows_at (map row_of sel) h = Some Scanned).
